@@ -70,7 +70,7 @@ def c09():
                 else [(3, 2, 2, bool(len(name) % 2), name in ("rvi", "pi")), (min(7, nref - 1), 3, 5, not bool(len(name) % 2), False), (nref - 1, 1, 2, True, False), (max(1, nref - 2), 2, 1, False, False)])
         plan = sorted(set(plan))       # interruption points just before convergence matter: state that only influences the stopping test shows there
         for (k, f, m, asyn, chain) in plan:
-            if k >= nref: continue
+            if k >= nref or (chain and k + 2 >= nref): continue         # an "interruption" after the run has converged is not one: solve() on a converged solver performs a further sweep (C08's proviso); found in the thorough tier (pi_reset converges at 6, chain 5 -> 7)
             d = os.path.join(base, f"c09_{name}_{k}_{f}_{m}"); inp = dict(solver=name, problem="Forest(S=11,p=0.2)", interrupt_at=k, frequency=f, max_checkpoints=m, async_=asyn, chain=chain, **{x: y for x, y in kw.items()})
             R.case((name, k, f, m, asyn, chain), inp)
             s = cls(Forest(S=11, p=0.2), verbose=0, checkpoint_dir=d, checkpoint_frequency=f, max_checkpoints=m, enable_async_checkpointing=asyn, **kw); s.solve(k); wait(s)
